@@ -33,7 +33,7 @@ echo "check-exit=$RC wall=$((END-START))s"
 python3 - <<PY
 import json
 viol=[l.strip() for l in open('/tmp/sc-check.$$',errors='replace') if l.startswith('violation ')]
-meta={"property":"$P","name":"$NAME","source":"independent sub-agent, wave 1 (given only the property text and a scratch worktree)",
+meta={"property":"$P","name":"$NAME","source":"independent sub-agent, wave $WAVE (given only the property text and a scratch worktree)",
  "demo_cmd":"$DEMO","confirmed":{"demo_passes_on_unchanged_tree":$CLEAN==0,"existing_suite_passes_with_change":$SUITE==0,"demo_fails_with_change":$SEEDED!=0},
  "check_cmd":"VERIF_REPO=<worktree with patch applied> ./check $P quick","check_exit":$RC,"check_wall_s":$((END-START)),"caught":$RC==1,
  "violation_classes":[v[:200] for v in viol[:6]]}
